@@ -25,7 +25,7 @@ type seqDesc struct {
 	P      V3       `json:"p"`
 }
 
-func (h *H) addSeq(d seqDesc) {
+func (h *H) addSeq(d seqDesc, toCoq bool) {
 	c := hx.Case{Kind: "seq", Desc: d, Key: key(d), Nontriv: true, Coq: "CGo"}
 	fail := func(format string, a ...interface{}) {
 		if c.GoFail == "" {
@@ -103,7 +103,7 @@ func (h *H) addSeq(d seqDesc) {
 		}
 		// Coq side: the union value through the generated model and the closed-form membership
 		for _, b := range fs {
-			if b.step == "U" {
+			if b.step == "U" && toCoq {
 				out := b.f(p)
 				if !math.IsNaN(out) && !math.IsInf(out, 0) {
 					u := Shape{T: "union", Sub: d.Shapes}
